@@ -127,7 +127,8 @@ def _dspec(name, vi):
     return {"d": name, "p": D.variants(name)[vi]}
 
 
-RECOMPILE_DESIGNS = ["prefix_in_sequential", "prefix_in_context", "prefix_named", "name_collisions"]
+RECOMPILE_DESIGNS = ["prefix_in_sequential", "prefix_in_context", "sync_flag_plain_sequential", "prefix_named",
+                     "name_collisions"]
 RECOMPILE_FILLERS = ["comb_logic", "seq_counter", "enum_state"]
 
 
@@ -137,28 +138,24 @@ def _enumerate_recompile(shard):
     other small designs so that the heap layout differs from compile to compile: effects that depend on the
     allocation history (object addresses reused after a compilation) only show after many compilations."""
     quick = shard["tier"] == "quick"
-    designs = RECOMPILE_DESIGNS[:2] if quick else RECOMPILE_DESIGNS
-    rounds = [(14, 10, 8)] if quick else [(24, 20, 16), (30, 10, 20)]
+    designs = RECOMPILE_DESIGNS[:3] if quick else RECOMPILE_DESIGNS
+    rounds = [(30, 24)] if quick else [(50, 40), (70, 20)]
     k = 0
     for name in designs:
         for vi in (range(1) if quick else range(min(2, len(D.variants(name))))):
-            for back_to_back, mixed, no_gc in rounds:
+            for back_to_back, mixed in rounds:
                 k += 1
                 if k % shard["parts"] != shard["part"]:
                     continue
                 ds = [_dspec(name, vi)] + [_dspec(f, 0) for f in RECOMPILE_FILLERS]
-                G = {"gc": True}
-                ops = [["c", 0, "Top"]]
-                for i in range(back_to_back):  # the same allocations in the same order, garbage freed in between
-                    ops.append([("c", "a", "c", "f")[i % 4], 0, "Top", G])
-                for i in range(mixed):  # 0-3 other compilations in between
-                    for j in range(i % 4):
-                        ops.append(["c", 1 + (i + j) % len(RECOMPILE_FILLERS), "Top"])
-                    ops.append([("c", "f", "a", "c")[i % 4], 0, "Top", G])
-                for i in range(no_gc):  # garbage collected whenever the interpreter decides to
-                    for j in range((i + 1) % 3):
-                        ops.append(["c", 1 + (i + j) % len(RECOMPILE_FILLERS), "Top"])
-                    ops.append(["c", 0, "Top"])
+                G = {"gc": True}  # before EVERY compile: the garbage of the previous compilation is freed
+                ops = [["c", 0, "Top", G]]
+                for i in range(back_to_back):  # the same allocations in the same order
+                    ops.append([("c", "a", "c", "f", "c")[i % 5], 0, "Top", G])
+                for i in range(mixed):  # 0-2 other compilations in between
+                    for j in range(i % 3):
+                        ops.append(["c", 1 + (i + j) % len(RECOMPILE_FILLERS), "Top", G])
+                    ops.append([("c", "c", "f", "a")[i % 4], 0, "Top", G])
                 yield {"designs": ds, "ops": ops}
 
 
@@ -238,7 +235,9 @@ def _enumerate_quick(shard):
                 if first[0] == vn and first[2] != vt:
                     # another top of the victim's module (shared helper / sub-entity classes): always, same module object
                     yield _pair((vn, vv, first[2]), victim)
-                elif (j + k) % QUICK_STRIDE["vxv"] == 1:
+                elif (j + k) % QUICK_STRIDE["vxv"] == 1 or (
+                        first[0] != vn and "bit_order" in D.tags(first[0]) and "bit_order" in D.tags(vn)):
+                    # designs with same-width vectors of opposite bit order are always paired, in both orders
                     case = _pair(first, victim)
                     if case:
                         yield case
